@@ -28,7 +28,7 @@ REL = {1: 0.15, 2: 0.9}          # value codes of Purity!cells[..].rel
 BASE_FIX = 0.35
 X_LL = np.array([1.3, 0.9, 0.7, 0.4, 0.3, 0.2])
 PAIRS = [('ll', 'lp_same'), ('ll', 'll'), ('llfix', 'pm'), ('hlp', 'll'), ('fp', 'lp'), ('pm', 'lp'), ('hlp', 'fp'), ('ctrl', 'll'),
-         ('lp', 'ctrl'), ('fp', 'fp')]
+         ('lp', 'ctrl'), ('fp', 'fp'), ('ppm', 'll'), ('ppm', 'ppm')]
 
 
 def user_models():
@@ -79,6 +79,21 @@ def build(kind, u, shared=None):
         return f, np.array([0.2, 0.3, 0.9, 0.7, 0.4, 0.3, 1.2, 1.4, 0.1, -0.2, 0.3, 0.5, -0.4, 0.2, 0.6, -0.1, 0.25, -0.35, 0.15, 0.45])
     if kind == 'pm':
         return chi.PredictiveModel(u['mech'], u['ems']), X_LL
+    if kind == 'ppm':
+        # a posterior predictive model over a posterior with TWO individuals: the walk samples them alternately from the
+        # same object (seeded) -- what one individual's sample returns must not depend on who was sampled before
+        import xarray as xr
+        pm = chi.PredictiveModel(u['mech'], u['ems'])
+        data = {}
+        for q, nme in enumerate(pm.get_parameter_names()):
+            arr = np.empty((2, 2, 2))
+            for c_ in range(2):
+                for d_ in range(2):
+                    arr[c_, d_, 0] = X_LL[q] * (1.0 + 0.01 * c_ + 0.02 * d_)
+                    arr[c_, d_, 1] = X_LL[q] * (1.3 + 0.01 * c_ + 0.02 * d_)
+            data[nme] = (('chain', 'draw', 'individual'), arr)
+        ds = xr.Dataset(data, coords={'chain': [0, 1], 'draw': [0, 1], 'individual': ['a', 'b']})
+        return chi.PosteriorPredictiveModel(pm, ds), X_LL
     if kind == 'ctrl':
         # a posterior built by the problem controller from the user's models and a data frame; the controller (kept in
         # u['ctrl']) is reconfigured LATER by the walk's mutation steps: the posterior it handed out must not notice
@@ -117,7 +132,11 @@ def evaluate(kind, obj, x, k):
     with warnings.catch_warnings():
         warnings.simplefilter('error', RuntimeWarning)
         xin = x.copy()
-        if kind == 'pm':
+        if kind == 'ppm':
+            who = 'a' if k in ('value', 'S1') else 'b'
+            df = obj.sample(np.array([2.0, 0.5, 1.0]), n_samples=3, individual=who, seed=3)
+            out = df['Value'].to_numpy(dtype=float)
+        elif kind == 'pm':
             tin = np.array([2.0, 0.5, 1.0])
             out = obj.sample(xin, tin, n_samples=2, seed=3, return_df=False)
             if list(tin) != [2.0, 0.5, 1.0]:
@@ -135,6 +154,8 @@ def evaluate(kind, obj, x, k):
 
 
 def eff_kind(kind, k):
+    if kind == 'ppm':
+        return 'a' if k in ('value', 'S1') else 'b'
     if kind == 'pm':
         return 'sample'
     if k == 'sample':
@@ -267,10 +288,10 @@ def replay_walk(arg):
         _FORK.clear()
         _FORK.update(objs)
         with ctx.Pool(2) as pool:
-            res = pool.map(_child_eval, [o for o in (1, 2) if objs[o][0] != 'pm'])
+            res = pool.map(_child_eval, [o for o in (1, 2) if objs[o][0] not in ('pm', 'ppm')])
         k = 0
         for o in (1, 2):
-            if objs[o][0] == 'pm':
+            if objs[o][0] in ('pm', 'ppm'):
                 continue
             exp = expected(objs[o][0], 'value', fixed=objfixed[o])
             if not np.allclose(res[k], exp, rtol=1e-9, atol=1e-10):
